@@ -527,8 +527,10 @@ func (c *chroniclerV2) ensureWriter() error {
 		// New file: use V3 format with name in header area
 		writer, err = v2.NewFileWriterWithName(c.hydFilePath, c.maxBlockSize, c.swampName)
 	} else {
-		// Existing file: preserve format (V2 or V3)
-		writer, err = v2.NewFileWriter(c.hydFilePath, c.maxBlockSize)
+		// Existing file: preserve format (V2 or V3). The name is still handed over: it is
+		// only used when the writer has to re-create a file that a crash tore while it was
+		// being created, which would otherwise come back without its swamp name.
+		writer, err = v2.NewFileWriterWithName(c.hydFilePath, c.maxBlockSize, c.swampName)
 	}
 	if err != nil {
 		return err
